@@ -22,6 +22,9 @@ package schemas
 //@ func MergeTypes
 //@   props C04 C11
 //@   every-iteration-calls mergo.Merge
+// ... and what is merged is each element of the branch list itself, in order: a
+// filtered or rebuilt list leaves some branch's `required` (and constraints) out.
+//@   arg-from Merge 1 range:param:types
 
 // The merge builds a new Type and leaves the branches alone: a branch is often a
 // definition that other parts of the schema reference too, so writing through it
@@ -147,3 +150,25 @@ package schemas
 //@ func NewCachedLoader@state
 //@   props C10 C20 C12
 //@   collections CachedLoader: cache
+
+// ---- the loader cache and relative references (C10, C20) --------------------------
+// A relative reference is relative to the referring document: the same text
+// ("common.json") from documents in two directories names two files. Scenario: the
+// cache has answered Load("common.json", "x/main.json"); then the same reference
+// comes from "y/entry.json". The file must be looked up again (the loader under the
+// cache is consulted with the new referrer); answering from the cache hands the
+// second document the first one's file.
+//@ func (*CachedLoader).Load@other-directory
+//@   props C10 C20 C03 C12
+//@   option verify-only
+//@   option noframe
+//@   option after-call parentURI="x/main.json"
+//@   shape l = new
+//@   shape l.loader = scenarioloader()
+//@   shape l.cache = emptymap()
+//@   shape uri = "common.json"
+//@   shape parentURI = "y/entry.json"
+//@   ensures [C10,C20,C03,C12] a-reference-from-another-directory-is-looked-up-again: called_with("Loader.Load", 2, "y/entry.json")
+
+//@ func cacheKey@drops
+//@   errdrop GetRefType: a reference whose kind cannot be told keeps its own text as its key; loading it fails in the loader under the cache, which reports the error
